@@ -124,9 +124,9 @@ def fromInt (c : BClass) (n : Nat) (fresh : Bitv) : Bitv :=
 def toInt (c : BClass) (bv : Bitv) : Nat :=
   (List.range c.nbits).foldl (fun r i => if test c bv i then r ||| (1 <<< i) else r) 0
 
-/-- `bitvResize(newc, oldc, b)`: the same vector when it already has enough words, else the old
-    words followed by the (undefined) words `fresh` of a new allocation.  (The C code then calls
-    `bitvFree` on the advanced cursor `b + oldc->nwords`; the model has no deallocation.) -/
+/-- `bitvResize(newc, oldc, b)`: the same vector when it already has enough words, else a new
+    vector: the old `oldc.nwords` words followed by the (undefined) remaining words `fresh` of the
+    new allocation; the old vector is freed (the model has no deallocation). -/
 def resize (newc oldc : BClass) (b : Bitv) (fresh : Bitv) : Bitv :=
   if oldc.nwords ≥ newc.nwords then b
   else b.take oldc.nwords ++ fresh.drop oldc.nwords
